@@ -203,3 +203,83 @@ def weightedCover (es0 : List (List String)) (u : List String) : List (Option (L
   (greedy (u.length + 1) es u []).map fun r => r.bind fun c => if checkCover es c then some c else none
 
 end O2P.Gate
+
+/-! ### OR inference on the miner's tree (`infer_or_gate_from_node`, `check_is_or_operator`, logic_detection.py 248-331)
+
+The raw process tree has optional branches `X(tau, …)`.  Below a parallel node they are turned into an OR: into an OR
+of everything when some observed set shows the mandatory part without any optional part, into `AND(mandatory,
+OR(optional))` otherwise.  Parent pointers of the Python objects are not modelled (the structure is). -/
+namespace O2P.Gate
+
+inductive POp where
+  | and | or | xor | other
+  deriving DecidableEq, Repr
+
+inductive PTree where
+  | leaf (a : String)
+  | tau
+  | node (op : POp) (cs : List PTree)
+  deriving Repr, Inhabited
+
+def PTree.isTau : PTree → Bool
+  | .tau => true
+  | _ => false
+
+mutual
+/-- `get_non_operator_successor_labels`: the labels of the leaves below (a tau leaf has the label `None`, written "") -/
+def PTree.labels : PTree → List String
+  | .leaf a => [a]
+  | .tau => [""]
+  | .node _ cs => PTree.labelsL cs
+def PTree.labelsL : List PTree → List String
+  | [] => []
+  | c :: cs => c.labels ++ PTree.labelsL cs
+end
+
+/-- how `infer_or_gate_from_node` sorts the children of a parallel node: (optional branches, mandatory ones);
+children with any other operator land in neither list -/
+def classify : List PTree → List PTree × List PTree
+  | [] => ([], [])
+  | c :: cs =>
+    let (t, n) := classify cs
+    match c with
+    | .leaf _ => (t, c :: n)
+    | .tau => (t, c :: n)
+    | .node .xor gcs => if gcs.any PTree.isTau then (c :: t, n) else (t, c :: n)
+    | .node _ _ => (t, n)
+
+def grandchildrenOf : PTree → List PTree
+  | .node _ gcs => gcs.filter fun g => !g.isTau
+  | _ => []
+
+/-- `check_is_or_operator` -/
+def checkIsOr (sets : List (List String)) (nonTau removed : List PTree) : Bool :=
+  nonTau.isEmpty ||
+  sets.any fun s =>
+    !(interS (PTree.labelsL nonTau) s).isEmpty && (interS (PTree.labelsL removed) s).isEmpty
+
+/-- `infer_or_gate_from_node` on one node -/
+def inferOrNode (sets : List (List String)) : PTree → PTree
+  | .node .and cs =>
+    let (tauC, nonTau) := classify cs
+    if tauC.isEmpty then .node .and cs else
+    let removed := tauC.flatMap grandchildrenOf
+    if checkIsOr sets nonTau removed then
+      if nonTau.length > 1 then .node .or (removed ++ [.node .and nonTau]) else .node .or (removed ++ nonTau)
+    else .node .and (nonTau ++ [.node .or removed])
+  | t => t
+
+mutual
+/-- `get_extended_or_gates_from_process_tree`: the node first, then its (new) children -/
+def inferOrAll (sets : List (List String)) : Nat → PTree → PTree
+  | 0, t => t
+  | fuel + 1, t =>
+    match inferOrNode sets t with
+    | .node op cs => .node op (inferOrAllL sets fuel cs)
+    | t' => t'
+def inferOrAllL (sets : List (List String)) : Nat → List PTree → List PTree
+  | _, [] => []
+  | fuel, c :: cs => inferOrAll sets fuel c :: inferOrAllL sets fuel cs
+end
+
+end O2P.Gate
